@@ -163,6 +163,21 @@ theorem specNext_length_pkt (filter : Frame → Bool) (outcome : Frame → FOut 
       · simp
     · intro h; have := ih p ts h; simp; omega
 
+theorem specNext_null_frames (filter : Frame → Bool) (outcome : Frame → FOut P) (err : Bool) :
+    ∀ (frames : List Frame), (specNext filter outcome err frames).1 = .null →
+      (specNext filter outcome err frames).2.frames = [] := by
+  intro frames
+  induction frames with
+  | nil => simp [specNext]
+  | cons f fs ih =>
+    simp only [specNext]
+    split
+    · split
+      · simp
+      · exact ih
+      · simp
+    · exact ih
+
 theorem specNext_no_fault (filter : Frame → Bool) (outcome : Frame → FOut P) (err : Bool) :
     ∀ (frames : List Frame) (i n : Nat), (specNext filter outcome err frames).1 ≠ .fault i n := by
   intro frames
@@ -195,6 +210,21 @@ theorem specAll_step (filter : Frame → Bool) (outcome : Frame → FOut P) (err
     split
     · split <;> simp_all
     · exact ih
+
+theorem specAll_no_fault (filter : Frame → Bool) (outcome : Frame → FOut P) :
+    ∀ (frames : List Frame) (i n : Nat), (specAll filter outcome frames).2 ≠ .fault i n := by
+  intro frames
+  induction frames with
+  | nil => simp [specAll]
+  | cons f fs ih =>
+    intro i n
+    simp only [specAll]
+    split
+    · split
+      · exact ih i n
+      · exact ih i n
+      · simp
+    · exact ih i n
 
 /-- draining with `next_packet` computes `specAll` -/
 theorem sniffAll_spec (m : Method) (filter : Frame → Bool) (h : Frame → SniffData P → HOut P)
